@@ -23,7 +23,7 @@ func init() {
 			"C16.7 ErrDupeTCPConnection is answered 446 and ErrTCPConnectionTimeoutOrFailure 447; " +
 			"C16.8 isDupeTCPConnection compares the remote address of every registered connection of the allocation (no iteration is skipped; by net.IP.Equal, ipnet.AddrEqual or equality of netip values); " +
 			"C16.9 (=C10.4) the client reads the ConnectionBind reply exactly, so that the first peer byte after it is the first byte the user reads; " +
-			"C16.10 (=C08.8 over the allocation package) a netip address taken from a net address is unmapped before it is compared, so the duplicate test sees one peer however its IPv4 address is spelled. C16.11 GetTCPConnection neither removes nor closes; C16.12 (=C09.12) deadline sites.",
+			"C16.10 (=C08.8 over the allocation package) a netip address taken from a net address is unmapped before it is compared, so the duplicate test sees one peer however its IPv4 address is spelled. C16.11 GetTCPConnection neither removes nor closes; C16.12 (=C09.12) deadline sites. C16.13 bind timer stopped only for the owner; no Reset of a bindTimer, no write of false into isBound; C16.14 the peer connection is dialled from Allocation.RelayAddr.",
 		NotCovered: "byte-stream integrity of io.Copy; the timing of the 30 s deadline; what the relay generator's AllocateConn does.",
 		Run:        runC16,
 	})
@@ -803,6 +803,8 @@ func runC16(c *Ctx) {
 	// its IPv4 address is spelled
 	ruleNetipUnmapped(c, "C16.10", "allocation")
 	ruleBindRefusalEffectFree(c, "C16.11")
+	rulePendingConnOwnerOnly(c, "C16.13")
+	ruleDialFromRelayAddr(c, "C16.14")
 	ruleDeadlineSites(c, "C16.12")
 
 	// ---- C16.9 (=C10.4, client half): the stream handed to the user starts right after the
